@@ -155,7 +155,16 @@ def run_main_slice(prog, rate_some, rate):
     if 'max_drift_rate' not in names:
         raise EngineError('Cli.max_drift_rate not found')
     fields = [Opaque('cli.' + n) for n in names]
-    fields[names.index('max_drift_rate')] = Enum(z3.If(rate_some, z3.IntVal(1), z3.IntVal(0)), {'Some': Struct([rate]), 'None': UNIT})
+    ftys = prog.struct_field_types.get('Cli') or []
+    fty = ftys[names.index('max_drift_rate')] if len(ftys) == len(names) else ''
+    rate_val = rate
+    if re.search(r'\bf(32|64)\b', fty):
+        # the option is kept as a float: its value is the real number `rate` (any real; a binary32/64 in particular)
+        from mirsym.values import FLin
+        rate_val = FLin(rate if z3.is_real(rate) else z3.ToReal(rate))
+    elif z3.is_real(rate):
+        raise EngineError('Cli.max_drift_rate has type %s' % fty)
+    fields[names.index('max_drift_rate')] = Enum(z3.If(rate_some, z3.IntVal(1), z3.IntVal(0)), {'Some': Struct([rate_val]), 'None': UNIT})
     cli = Struct(fields)
     borrows = sr.mutable_borrows(L)
     st0 = State()
@@ -267,7 +276,7 @@ def run_main_slice(prog, rate_some, rate):
                     break
                 bb = nx; continue
             raise EngineError('terminator? ' + t[:100])
-    return hits, ends, dict(slice_locals=sorted(L), mutable_borrows=borrows, ex=ex, fn=fn, steps=steps)
+    return hits, ends, dict(slice_locals=sorted(L), mutable_borrows=borrows, ex=ex, fn=fn, steps=steps, option_type=fty)
 
 
 def native_drift(rate):
@@ -314,9 +323,19 @@ def run_check(tier, seed):
     ck = Check('C19', tier, seed)
     prog, mir_wall = load_bin_program()
     rate = z3.Int('max_drift_rate_ppm'); some = z3.Bool('option_given')
+    names_ = prog.struct_fields.get('Cli') or []
+    ftys_ = prog.struct_field_types.get('Cli') or []
+    is_float = 'max_drift_rate' in names_ and len(ftys_) == len(names_) and re.search(r'\bf(32|64)\b', ftys_[names_.index('max_drift_rate')])
+    if is_float:
+        # a fractional option: any non-negative real with at most three decimals (a whole number of ppb)
+        rate = z3.Real('max_drift_rate_ppm')
     hits, ends, info = run_main_slice(prog, some, rate)
     pr = Prover(seed)
     pr.add(rate >= 0, rate < U32); pr.add(info['ex'].side)
+    if is_float:
+        ppb = z3.Int('max_drift_rate_ppb_exact')
+        pr.add(z3.ToReal(ppb) == rate * 1000)
+        ck.cov['option_type'] = info.get('option_type')
     ck.cov['functions_encoded'] = ['main (clockbound binary, release profile MIR): slice of the first argument of thread_manager::run']
     ck.cov['slice_locals'] = info['slice_locals']; ck.cov['slice_steps'] = info['steps']
     ck.cov['mir_dump_s'] = round(mir_wall, 1)
@@ -325,18 +344,38 @@ def run_check(tier, seed):
         ck.inconclusive.append('a slice local is mutably borrowed in main (%s): the slice may be incomplete' % (info['mutable_borrows'][:2],))
     if not hits:
         ck.inconclusive.append('no path of main reaches thread_manager::run')
-    want = z3.If(some, rate * 1000, z3.IntVal(1000))
+    want = z3.If(some, ppb if is_float else rate * 1000, z3.IntVal(1000))
     confirmed = [0]
 
     def confirm(m):
         r = mval(m, rate) if mval(m, some) else None
-        nat = native_drift(r)
-        exp = 1000 if r is None else r * 1000
+        if r is not None and is_float:
+            from fractions import Fraction
+            q = Fraction(r) * 1000
+            if q.denominator != 1:
+                return None
+            exp_ppb = int(q)
+            # the enclosure of a float computation says how far the result may be off, not where: replay the model's value and
+            # values whose product with 1000 needs more significant bits than a binary32 / binary64 has
+            cands = [exp_ppb] + [x * 1000 for x in (134219, 268437, 536873, 1073745, 2147487, 4294967, 16777, 33555)] + [500, 1, 1001]
+            for c_ppb in cands:
+                if c_ppb >= U32:
+                    continue
+                r = c_ppb // 1000 if c_ppb % 1000 == 0 else '%d.%03d' % (c_ppb // 1000, c_ppb % 1000)
+                nat = native_drift(r)
+                exp = c_ppb
+                if nat.get('published_max_drift_ppb') is not None and nat['published_max_drift_ppb'] != exp:
+                    break
+                if nat.get('published_max_drift_ppb') is None and nat.get('exit_status_before_publication') not in (None, 0):
+                    break
+        else:
+            nat = native_drift(r)
+            exp = 1000 if r is None else r * 1000
         if nat.get('published_max_drift_ppb') is not None and nat['published_max_drift_ppb'] != exp:
             confirmed[0] += 1
-            kind = 'wrapped' if (r is not None and nat['published_max_drift_ppb'] == (r * 1000) % U32) else 'wrong-value'
+            kind = 'wrapped' if (r is not None and nat['published_max_drift_ppb'] == exp % U32) else 'wrong-value'
             ck.violation('drift-' + kind, 'the real release binary started with %s published max_drift_ppb = %d, expected %s' % (
-                '--max-drift-rate %d' % r if r is not None else 'no --max-drift-rate', nat['published_max_drift_ppb'], ('%d (not representable in 32 bits: start-up must be refused)' % exp) if exp >= U32 else exp),
+                '--max-drift-rate %s' % r if r is not None else 'no --max-drift-rate', nat['published_max_drift_ppb'], ('%d (not representable in 32 bits: start-up must be refused)' % exp) if exp >= U32 else exp),
                 {'cmd': 'clockbound --max-drift-rate %s' % r, 'native': nat})
             return kind
         if nat.get('published_max_drift_ppb') is None and exp < U32 and nat.get('exit_status_before_publication') not in (None, 0):
@@ -348,11 +387,14 @@ def run_check(tier, seed):
         pcc = z3.And(pc) if pc else z3.BoolVal(True)
         if not isinstance(val, z3.ExprRef):
             ck.inconclusive.append('the value passed to run() is not precise: %r' % (val,)); continue
-        pr.prove_cegar('path %d to run(): published rate = 1000 x option as integers (1000 when omitted), never wrapped' % i, pcc, val == want, confirm, lambda m: [])
+        hk = z3.Int('hint_ppm')
+        hints = [[rate == z3.ToReal(hk), hk >= 134217, hk <= 4294967], [rate == z3.ToReal(hk), hk >= 1]] if is_float else None
+        pr.prove_cegar('path %d to run(): published rate = 1000 x option as integers (1000 when omitted), never wrapped' % i, pcc, val == want, confirm, lambda m: [],
+                       **({'hints': hints} if hints else {}))
     # every representable rate does reach run()
     reach = z3.Or([z3.And(pc) if pc else z3.BoolVal(True) for pc, v in hits]) if hits else z3.BoolVal(False)
     pr.prove_cegar('every representable rate (and the default) reaches thread_manager::run on some path (refusals for other reasons, e.g. PHC options, are separate paths)',
-                   z3.Or(z3.Not(some), rate * 1000 < U32), reach, confirm, lambda m: [], need_reach=False)
+                   z3.Or(z3.Not(some), (ppb if is_float else rate * 1000) < U32), reach, confirm, lambda m: [], need_reach=False)
     ck.absorb(pr)
     # the value's way from thread_manager::run to the updater: spawn closure capture -> shm_writer::run -> ShmUpdater::new
     try:
